@@ -17,3 +17,11 @@ pub use api::{Discovery, DiscoveryError};
 pub use builder::Builder;
 pub use config::DiscoveryConfig;
 pub use events::{DiscoveryEvent, SessionRole};
+
+/// Verification hooks: gives the simulator access to the (otherwise private) backoff logic.
+/// Compiled only with `--cfg p2panda_p2panda_verif`.
+#[cfg(p2panda_p2panda_verif)]
+#[doc(hidden)]
+pub mod verif {
+    pub use super::backoff::{Backoff, Config as BackoffConfig};
+}
